@@ -150,6 +150,12 @@ class HierarchicalProblem(up.model.problem.Problem):
         factory = self._kind_factory()
         factory.kind.set_problem_class("HIERARCHICAL")
         factory.kind.unset_problem_class("ACTION_BASED")
+        for task in self.tasks:
+            for param in task.parameters:
+                factory.update_problem_kind_type(param.type)
+        for method in self.methods:
+            for param in method.parameters:
+                factory.update_problem_kind_type(param.type)
         TO, PO, TEMPORAL = (0, 1, 2)
 
         def lvl(tn: AbstractTaskNetwork):
